@@ -259,21 +259,43 @@ fn gen_graph_with(r: &mut Rng, class: &'static str, n: usize) -> GDesc {
 /// The harness's own view of the graph: adjacency masks over abstract vertices, keyed by V.
 struct GraphOracle {
     n: usize,
+    /// adjacency bit masks (graphs with at most 64 vertices)
     adj: Vec<u64>,
+    /// adjacency bit rows for larger graphs (`oracle::f2small` rows), empty otherwise
+    adj_big: Vec<crate::oracle::f2small::Row>,
     verts_sorted: Vec<V>,
     index_of: BTreeMap<V, usize>,
 }
 
 impl GraphOracle {
     fn new(d: &GDesc, ids: &[V]) -> GraphOracle {
+        use crate::oracle::f2small as fs;
         let mut adj = vec![0u64; d.n];
-        for &(a, b) in &d.edges {
-            adj[a] |= 1 << b;
-            adj[b] |= 1 << a;
+        let mut adj_big = vec![];
+        if d.n <= 64 {
+            for &(a, b) in &d.edges {
+                adj[a] |= 1 << b;
+                adj[b] |= 1 << a;
+            }
+        } else {
+            adj_big = vec![fs::zero_row(d.n); d.n];
+            for &(a, b) in &d.edges {
+                fs::set(&mut adj_big[a], b, true);
+                fs::set(&mut adj_big[b], a, true);
+            }
         }
         let mut vs = ids.to_vec();
         vs.sort();
-        GraphOracle { n: d.n, adj, verts_sorted: vs, index_of: ids.iter().enumerate().map(|(k, &v)| (v, k)).collect() }
+        GraphOracle { n: d.n, adj, adj_big, verts_sorted: vs, index_of: ids.iter().enumerate().map(|(k, &v)| (v, k)).collect() }
+    }
+    /// the same for graphs with more than 64 vertices: `side` as a bit row
+    fn cut_rank_big(&self, side: &crate::oracle::f2small::Row) -> usize {
+        use crate::oracle::f2small as fs;
+        let rows: Vec<fs::Row> = (0..self.n)
+            .filter(|&a| fs::get(side, a))
+            .map(|a| self.adj_big[a].iter().zip(side.iter()).map(|(x, s)| x & !s).collect())
+            .collect();
+        fs::rank(&rows, self.n)
     }
     /// rank over F2 of the biadjacency matrix between `side` and its complement
     fn cut_rank(&self, side: u64) -> usize {
@@ -385,7 +407,22 @@ fn brute_ranks(t: &DecompTree, go: &GraphOracle) -> BTreeMap<(usize, usize), usi
     let mut out = BTreeMap::new();
     for i in 0..t.nodes.len() {
         for j in nbrs(&t.nodes[i]) {
-            if i < j {
+            if i < j && go.n > 64 {
+                use crate::oracle::f2small as fs;
+                let mut side = fs::zero_row(go.n);
+                let mut stack = vec![(i, j)];
+                while let Some((x, from)) = stack.pop() {
+                    if let DecompNode::Leaf(_, v) = &t.nodes[x] {
+                        fs::set(&mut side, go.index_of[v], true);
+                    }
+                    for y in nbrs(&t.nodes[x]) {
+                        if y != from {
+                            stack.push((y, x));
+                        }
+                    }
+                }
+                out.insert((i, j), go.cut_rank_big(&side));
+            } else if i < j {
                 // leaves on i's side when the edge {i,j} is removed
                 let mut side = 0u64;
                 let mut stack = vec![(i, j)];
@@ -730,6 +767,13 @@ struct AnnealParams {
     defaults: bool,
 }
 
+thread_local! {
+    /// third way of installing the starting tree: `new` followed by `set_init_decomp` with the
+    /// narrowest of a dozen random trees (what the Python binding does); chosen per case by
+    /// the families that want it, read by `run_annealer`
+    static USE_SETTER: std::cell::Cell<bool> = const { std::cell::Cell::new(false) };
+}
+
 const G_ITER: [usize; 5] = [0, 1, 30, 200, 1000];
 const G_T0: [f64; 3] = [0.1, 5.0, 100.0];
 const G_TMIN: [f64; 3] = [0.001, 0.05, 1.0];
@@ -759,10 +803,24 @@ fn run_annealer<G: GraphLike>(family: &'static str, index: u64, gd: &GDesc, p: A
     let edgeless = gd.edges.is_empty();
     let cj = json!({"graph": gd.to_json(), "vertex_ids": ids, "rng": RNG_KINDS[rng_kind], "seed": seed, "init_decomp_seed": seed2,
                     "params": {"iterations": p.iterations, "init_temp": p.init_temp, "min_temp": p.min_temp, "cooling_rate": p.cooling, "adaptive_cooling": p.adaptive,
-                               "constructor": if p.ctor_new { "new" } else { "new_with_decomp" }, "library_defaults": p.defaults}});
+                               "constructor": if USE_SETTER.with(|u| u.get()) { "new+set_init_decomp(narrowest of 12 random trees)" } else if p.ctor_new { "new" } else { "new_with_decomp" }, "library_defaults": p.defaults}});
     let obs = Obs { family, index, g: &g, go: &go, ctx_json: &cj };
+    let use_setter = USE_SETTER.with(|u| u.replace(false));
     let built = guarded(|| {
-        let mut a = if p.ctor_new {
+        let mut a = if use_setter {
+            let mut a = RankwidthAnnealer::new(g.clone(), AnyRng::new(rng_kind, seed));
+            let mut rr = AnyRng::new(rng_kind, seed2);
+            let mut best: Option<(usize, DecompTree)> = None;
+            for _ in 0..12 {
+                let t = DecompTree::random_decomp(&g, &mut rr);
+                let w = width_score(&brute_ranks(&t, &go)).0;
+                if best.as_ref().is_none_or(|b| w < b.0) {
+                    best = Some((w, t));
+                }
+            }
+            a.set_init_decomp(best.unwrap().1);
+            a
+        } else if p.ctor_new {
             RankwidthAnnealer::new(g.clone(), AnyRng::new(rng_kind, seed))
         } else {
             let init = DecompTree::random_decomp(&g, &mut AnyRng::new(rng_kind, seed2));
@@ -797,7 +855,7 @@ fn run_annealer<G: GraphLike>(family: &'static str, index: u64, gd: &GDesc, p: A
     st.add("op:annealer.run", 1);
     st.add(&format!("annealer:iterations={:04}", if p.defaults { 1000 } else { p.iterations }), 1);
     st.add(&format!("annealer:adaptive={}", if p.defaults { true } else { p.adaptive }), 1);
-    st.add(&format!("annealer:constructor={}", if p.ctor_new { "new" } else { "new_with_decomp" }), 1);
+    st.add(&format!("annealer:constructor={}", if use_setter { "new+set_init_decomp" } else if p.ctor_new { "new" } else { "new_with_decomp" }), 1);
     st.add(&format!("annealer-graphs:class:{}", gd.class), 1);
     st.add(&format!("annealer-graphs:n={:02}", gd.n), 1);
     let mut nontrivial = false;
@@ -953,6 +1011,7 @@ pub fn run() {
     par_cases("annealer-grid", gs * reps, move |r, i| {
         let mut p = grid_point(i as usize % gs);
         p.ctor_new = r.chance(0.5);
+        USE_SETTER.with(|u| u.set(r.chance(0.25)));
         let mut gd = gen_graph(r, if p.iterations >= 1000 { 9 } else { 14 });
         gd.backend = if gd.backend == 1 { 1 } else { r.below(3) };
         if gd.backend != 1 {
@@ -989,6 +1048,7 @@ pub fn run() {
         if gd.n < 12 {
             gd = gen_graph(r, 30);
         }
+        USE_SETTER.with(|u| u.set(i % 3 == 2));
         gd.backend = if gd.backend == 1 { 1 } else { r.below(3) };
         if gd.backend != 1 {
             gd.slots = (0..gd.n).collect();
@@ -999,6 +1059,26 @@ pub fn run() {
             run_annealer::<quizx::hash_graph::Graph>("annealer-wide-short", i, &gd, p, k, s, s2)
         } else {
             run_annealer::<quizx::vec_graph::Graph>("annealer-wide-short", i, &gd, p, k, s, s2)
+        }
+    });
+
+    // ---- graphs with 65-170 vertices: cuts with more than 64 vertices on both sides ----
+    let n_large = t.pick(60usize, 4_000usize);
+    par_cases("large-graphs", n_large, move |r, i| {
+        let n = *r.pick(&[65usize, 100, 129, 131, 140, 150, 170]) + r.below(3);
+        let class = *r.pick(&["gnp-sparse", "gnp-half", "random-tree", "path", "cycle", "star", "complete-bipartite", "union-of-cliques"]);
+        let gd = gen_graph_with(r, class, n);
+        if i % 2 == 0 {
+            let plan = HistoryPlan { rng_kind: r.below(3), decomp_seed: pick_seed(r), move_seed: pick_seed(r), len: 4 + r.below(20), profile: r.below(PROFILES.len()), query_p: *r.pick(&[0.3, 1.0]), first_move: None };
+            dispatch_history("large-graphs", i, r, &gd, &plan);
+        } else {
+            let p = AnnealParams { iterations: *r.pick(&[0usize, 1, 3, 8]), init_temp: 5.0, min_temp: 0.01, cooling: 0.95, adaptive: r.chance(0.5), ctor_new: r.chance(0.5), defaults: false };
+            let (k, s, s2) = (r.below(3), pick_seed(r), pick_seed(r));
+            if gd.backend == 2 {
+                run_annealer::<quizx::hash_graph::Graph>("large-graphs", i, &gd, p, k, s, s2)
+            } else {
+                run_annealer::<quizx::vec_graph::Graph>("large-graphs", i, &gd, p, k, s, s2)
+            }
         }
     });
 
